@@ -246,6 +246,37 @@ def Iter.run (cmp : Cmp) (db : DB) : Iter → List (Call Bytes) → List (Option
   | _, [] => []
   | it, c :: cs => let it' := Iter.step cmp db c it; it'.out db :: Iter.run cmp db it' cs
 
+/-! ## the generation counter (`DB.gen`, `dbIter.gen`: repair of D31)
+
+`Reset` increments the generation of the table, every `fill` copies it into the iterator, and `Next`/`Prev` on a valid
+iterator of an older generation drop its node instead of following a pointer (`Next`, D31) or searching with the stale
+key (`Prev`, D32): the iterator is exhausted in the direction of the move.  The ideal list keeps the counter beside the
+table (`g`) and beside the iterator (`GIter.gen`); everything else is the iterator above. -/
+
+structure GIter where
+  it : Iter := {}
+  gen : Nat := 0
+
+/-- one movement of `dbIter` on a table of generation `g` -/
+def GIter.step (cmp : Cmp) (db : DB) (g : Nat) : Call Bytes → GIter → GIter
+  | .first, x => ⟨x.it.first cmp db, g⟩
+  | .last, x => ⟨x.it.last cmp db, g⟩
+  | .seek k, x => ⟨x.it.seek cmp db k, g⟩
+  | .next, x =>
+    match x.it.node with
+    | none => if !x.it.forward then ⟨x.it.first cmp db, g⟩ else x
+    | some _ =>
+      if x.gen != g then ⟨{ x.it with forward := true, node := none }, g⟩ else ⟨x.it.next cmp db, g⟩
+  | .prev, x =>
+    match x.it.node with
+    | none => if x.it.forward then ⟨x.it.last cmp db, g⟩ else x
+    | some _ =>
+      if x.gen != g then ⟨{ x.it with forward := false, node := none }, g⟩ else ⟨x.it.prev cmp db, g⟩
+
+def GIter.run (cmp : Cmp) (db : DB) (g : Nat) : GIter → List (Call Bytes) → List (Option (Bytes × Bytes))
+  | _, [] => []
+  | x, c :: cs => let x' := GIter.step cmp db g c x; x'.it.out db :: GIter.run cmp db g x' cs
+
 /-! ## operations and answers (the state machine the harness drives) -/
 
 inductive Op
